@@ -211,6 +211,31 @@ def r3(ctx, r):
                      % (short(f.name), show(val)[:50], why), okdesc="%s: Content-Length = to_string(%s.size())" % (last(f.name), "body"))
     if n < 6:
         raise AnalysisBroken("only %d Content-Length assignments found in http_server.hpp (floor 6)" % n)
+    # every in-server write of a response body keeps Content-Length in step (closed set of body writers)
+    nb = 0
+    for f in fb.in_file(HSF):
+        if not f.ok or last(f.name) == "set_content":
+            continue
+        for e in f.stmts():
+            a = asg(e.node)
+            if not a:
+                continue
+            lt = show(strip_casts(a[0]))
+            if not lt.endswith(".body") or lt.startswith("req.") or lt == "req.body":
+                continue
+            rt = show(strip_views(a[1]))
+            if rt.endswith(".body") or "parseChunkedBody" in rt:
+                continue        # copy of another message's body (its Content-Length travels with the copied headers) / request side
+            owner = lt[:-len(".body")]
+            nb += 1
+            r.instance()
+            blk = [x for x in e.block.elems if x.kind == "stmt"]
+            okb = any((x.node.get("k") == "mcall" and last(x.node.get("callee", "")) in ("setHeader", "set_header") and show(strip_casts(x.node.get("obj"))) == owner and [y.get("v") for y in walk(x.node["args"][0]) if y.get("k") == "str"] == ["Content-Length"])
+                      or (asg(x.node) and "Content-Length" in show(asg(x.node)[0]) and show(asg(x.node)[0]).startswith(owner + ".headers")) for x in blk)
+            r.expect(okb, f, e, "body written without Content-Length: %s" % lt, "%s assigns `%s` directly and does not set that message's Content-Length in the same block (only set_content keeps the two in step): the header keeps the length of an "
+                     "earlier body and the peer loses framing on the connection" % (short(f.name), lt), okdesc="%s: %s written together with its Content-Length" % (last(f.name), lt))
+    if nb < 3:
+        raise AnalysisBroken("only %d direct response-body writes found (floor 3)" % nb)
     # bodyless statuses on HEAD drop the header
     p = fn(ctx, HS, "processHttpRequest", HSF)
     stb = [b for b in p.blocks.values() if b.cond is not None and common.cmp_parts(b.cond) and show(strip_casts(common.cmp_parts(b.cond)[1])) == "res.status" and const_value(common.cmp_parts(b.cond)[2]) in (204, 304)]
@@ -258,6 +283,15 @@ def r4(ctx, r):
     r.expect(len(hb) >= 1 and any(search(p, ("entry",), lambda x: x is copy[0], eh=False, edge_ok=lambda b, si: b not in hb) is None for _ in [0]), p, None, "HEAD test", "the wire copy is reachable without passing the HEAD test", okdesc="HEAD test on every path to the copy")
 
 
+class Renamed:
+    """an element of a helper, seen with the helper's Response parameter renamed to `res`"""
+
+    def __init__(self, e, pname):
+        import json
+        self.kind, self.block, self.idx, self.line, self.raw, self.try_id, self.catch_id = e.kind, e.block, e.idx, e.line, e.raw, e.try_id, e.catch_id
+        self.node = json.loads(json.dumps(e.node).replace('"n": "%s"' % pname, '"n": "res"')) if e.kind == "stmt" else e.node
+
+
 def r5(ctx, r):
     fb = ctx.fb()
     # who invokes a user Handler (std::function<void(const Request&, Response&)>)
@@ -287,7 +321,17 @@ def r5(ctx, r):
              okdesc="handlers: %s" % ", ".join(t["handlers"]))
     for b in sn.blocks.values():
         if b.label and b.label.get("k") == "catch" and b.label.get("try") == call[0].try_id:
-            els = _reach_until_ret(sn, b.id)
+            els = list(_reach_until_ret(sn, b.id))
+            # a clause may delegate to a helper of the class that receives the Response: look inside (the parameter takes the place of `res`)
+            for x in list(els):
+                c_ = (x.node.get("callee") or "") if x.kind == "stmt" else ""
+                if x.kind == "stmt" and x.node.get("k") in ("call", "mcall") and c_.startswith(HS + "::") and last(c_) not in ("set_content",) and any(key_of(a) == "res" for a in x.node.get("args", [])):
+                    for g in fb.funcs(c_, HSF):
+                        if g.ok:
+                            pi = [i for i, a in enumerate(x.node["args"]) if key_of(a) == "res"][0]
+                            pn = g.params[pi]["n"] if pi < len(g.params) else None
+                            if pn:
+                                els.extend(Renamed(y, pn) for y in g.stmts())
             st = [x for x in els if x.kind == "stmt" and asg(x.node) and show(strip_casts(asg(x.node)[0])) == "res.status" and const_value(strip_casts(asg(x.node)[1])) == 500]
             sc = [x for x in els if x.kind == "stmt" and x.node.get("k") == "mcall" and last(x.node.get("callee", "")) == "set_content" and key_of(x.node.get("obj")) == "res"]
             su = [x for x in els if x.kind == "stmt" and asg(x.node) and show(strip_casts(asg(x.node)[0])) == "res._suppressSend" and const_value(strip_casts(asg(x.node)[1])) == 0]
